@@ -862,13 +862,29 @@ LEVEL_TEXT = ("Machine-checked theorems (Coq 8.16, closed under the global conte
               "what the matches hold per type shape; update leaves every field whose id is absent from the matches "
               "untouched, for every sequence of updates; every name and alias of a value-enum variant maps back to it and "
               "nothing maps to a skipped variant; extracting from the matches of the canonical print of a value returns "
-              "the value.  The model is tied to clap_derive by compiling a corpus spanning the shape x kind x type x "
+              "the value.  Round 2 (composition with the parser model): the derived parser returns a value exactly when "
+              "the generated command's parse succeeds and extraction succeeds (and fails exactly when one of them does); "
+              "gen_augment's Kind::Arg arm in closed form for every field; for every struct of option fields (--long / -s, "
+              "shapes bool, counter, T, Option, Option<Option>, Vec, Option<Vec>, any attribute combination without "
+              "value_delimiter) that passes clap's debug assertions the built command lies in C02's class conv, every "
+              "field name resolves to the field's argument, the canonical print of a value IS the rendering of a "
+              "well-formed invocation whose occurrences are the printed groups, and whenever the command accepts that "
+              "line, extraction from the matches of the real parse (parse_top, through C02_unparse, C02 conservation, "
+              "C07's fold and C06's default phase) returns the value; extraction can fail after a successful command parse "
+              "exactly when the command does not declare the requiredness (witness: required = false on a plain field); and "
+              "for every well-formed invocation of the update command of a struct of argument fields, a field whose argument "
+              "has no default and no occurrence ON THE LINE keeps its value under try_update_from; the command-line phase accepts "
+              "the printed line when every printed group passes the built argument's own count check and value parser.  The model is tied to clap_derive by compiling a corpus spanning the shape x kind x type x "
               "attribute matrix with the real macro and comparing command dumps, parses, round trips, update sequences "
               "and value-enum lookups against the extracted model (which runs on top of the parser model) on every check; "
               "an independent python oracle checks the property's statements on the implementation's output.")
 LEVEL_NOTE = ("Partial: the macro runs inside rustc, so the tie is its expansion on the corpus; attribute parsing and casing "
-              "are covered differentially only.  The round-trip theorem is at the matches level; its composition with the "
-              "parser (print -> parse_top) is checked executably on every dround case.  Four families where the unchanged "
+              "are covered differentially only.  The round trip through the parser is proved as soundness (the command accepts "
+              "the printed line => the value comes back) for structs of option fields; acceptance is proved for the command-line "
+              "phase only (every react succeeds), not for the default and validation phases; positionals after --, flattened structs and "
+              "subcommand enums, and 'extraction cannot fail after a successful parse' for arbitrary argv (needs a whole-loop "
+              "invariant on stored values that the parser proofs do not provide yet) stay checked executably on every "
+              "dround / dparse case.  Four families where the unchanged "
               "code violates the property are recorded as known findings (update resets default-bearing fields; update "
               "materialises a None optional flatten; an optional flatten with a required member cannot be None; an optional "
               "flatten of a struct that itself flattens is always None).")
